@@ -10,9 +10,12 @@
    Output, one line per input line:
      M re im bound flag     p(x), upper bound of p~(|x|), flag=1 iff the sparse scheme (exact twin,
                             pattern = nonzero coefficients, q = ceil(log2(k+1)) passes) gives the same value
-     C re im bound flag     sum c_k T_k(x), upper bound of sum |c_k| T~_k(|x|), flag=1 iff the coded
-                            forward recurrence (exact twin) gives the same value
-     S sre sim pre pim bound     S(x), P(x) = -S(x) prod (x-b_i), upper bound of (sum|a_i|/|x-b_i| + 1) prod|x-b_i|
+     C re im bound flag est maj   sum c_k T_k(x), upper bound of sum |c_k| T~_k(|x|), flag=1 iff the coded
+                            forward recurrence (exact twin) gives the same value; est = the coded error estimate
+                            without its roundings and without the factor u2 (cheb_est_q), maj = the same sum over
+                            the majorants T~_k
+     S sre sim pre pim bound est   S(x), P(x) = -S(x) prod (x-b_i), upper bound of (sum|a_i|/|x-b_i| + 1) prod|x-b_i|,
+                            est = the coded error estimate without roundings and without u4 (sec_est_q)
      S POLE                 x equals some b_i
 *)
 open Eval
@@ -113,14 +116,17 @@ let () =
            let (v, b) = eval_cheb_q cs x in
            (* specification value (naive T_k, exponential time) only for small degrees *)
            let same = if k <= 14 then qc_eq (cheb_q cs O x) v else true in
-           Printf.printf "C %s %s %d\n" (string_of_qc v) (string_of_q b) (if same then 1 else 0)
+           let (e, m) = cheb_est_q cs x in
+           Printf.printf "C %s %s %d %s %s\n" (string_of_qc v) (string_of_q b) (if same then 1 else 0)
+             (string_of_q e) (string_of_q m)
          | "S" ->
            let ab = List.init k (fun _ -> let a = next_c () in let b = next_c () in (a, b)) in
            let x = next_c () in
            (match eval_sec_q ab x with
             | None -> print_string "S POLE\n"
             | Some ((s, p), b) ->
-              Printf.printf "S %s %s %s\n" (string_of_qc s) (string_of_qc p) (string_of_q b))
+              Printf.printf "S %s %s %s %s\n" (string_of_qc s) (string_of_qc p) (string_of_q b)
+                (string_of_q (sec_est_q ab x)))
          | _ -> failwith "unknown command");
         flush stdout
       end
